@@ -126,6 +126,11 @@ def c09b(prog, R):
         key = "%s|discard[%s] %s" % (sm.path, cls, " & ".join(sm.guards(s))[-150:])
         if cls == "filter-drop":
             continue
+        if cls == "weak-annihilation":
+            # the value beneath the weak tombstone is dropped here: it must be reported
+            r.check(sm.before_has_call(s, "on_dropped", "&dropped"), key + "|reports the value it consumes",
+                    "the value removed together with a weak tombstone is not reported to the GC callback", "")
+            continue
         r.check(cls in ("tombstone-eviction", "weak-annihilation"), key,
                 "an entry is discarded without on_dropped and without a tombstone guard (a value pointer would leak from "
                 "the accounting)", "")
